@@ -124,6 +124,7 @@ class Interface:
     assoc_impl: tuple = ()    # ((name, concrete type)...) for the impl on the contract
     exec_c: bool = False      # declares `type ExecC: CustomMsg;`
     query_c: bool = False
+    body_style: str = None    # overrides the body style of the impl on the contract (e.g. "rich")
 
 
 @dataclass
@@ -148,13 +149,31 @@ class Contract:
     fields: str = None        # struct body for generic contracts
 
 
+def iface_customs(iface):
+    """(msg type text or None, query type text or None) fixed by the interface's sv::custom attribute."""
+    cm = cq = None
+    if iface is not None and iface.custom:
+        for part in split_top(iface.custom):
+            k, v = part.split("=", 1)
+            if k.strip() == "msg":
+                cm = v.strip()
+            elif k.strip() == "query":
+                cq = v.strip()
+    return cm, cq
+
+
 def default_ret(kind, part, custom_msg=None, err="std", qret="vsupport::EchoResp", iface=None):
     resp = "Response" if not custom_msg else "Response<%s>" % custom_msg
     if part == "iface":
         if kind == "query":
             return "Result<%s, Self::Error>" % qret
-        if iface is not None and iface.exec_c:
+        im, _ = iface_customs(iface)
+        if iface is not None and iface.exec_c and not im:
             resp = "Response<Self::ExecC>"
+        elif im and im not in ("Empty", "sylvia::cw_std::Empty"):
+            resp = "Response<%s>" % im
+        else:
+            resp = "Response"
         return "Result<%s, Self::Error>" % resp
     if kind == "query":
         return ("StdResult<%s>" % qret) if err == "std" else ("Result<%s, ContractError>" % qret)
@@ -163,8 +182,13 @@ def default_ret(kind, part, custom_msg=None, err="std", qret="vsupport::EchoResp
 
 def ctx_type(kind, custom_query=None, iface=None):
     c = CTX[kind]
-    if iface is not None and iface.query_c:
-        return "%s<Self::QueryC>" % c
+    if iface is not None:
+        _, iq = iface_customs(iface)
+        if iface.query_c and not iq:
+            return "%s<Self::QueryC>" % c
+        if iq and iq not in ("Empty", "sylvia::cw_std::Empty"):
+            return "%s<%s>" % (c, iq)
+        return c
     if custom_query:
         return "%s<%s>" % (c, custom_query)
     return c
@@ -190,6 +214,9 @@ def method_body(m, part_label, style, contract_err=None, via_question=False):
     if style == "stub":
         return "{ todo!() }"
     h = "%s::%s" % (part_label, bare(m.name))
+    if style == "rich" and m.kind in ("exec", "sudo"):
+        info = "Some(&ctx.info)" if m.kind == "exec" else "None"
+        return '{ Ok(vsupport::echo_rich_empty("%s", ctx.deps, &ctx.env, %s, %s, a)?) }' % (h, info, echo_args(m))
     if m.kind == "query":
         call = 'vsupport::echo_query("%s", ctx.deps, &ctx.env, %s)' % (h, echo_args(m))
     elif m.kind in ("instantiate", "exec"):
